@@ -81,10 +81,10 @@ Proof. exact run_present_exact. Qed.
    that element may be arbitrarily far away. *)
 Theorem C08_multiuse_read_ahead_refuted :
   exists fuel t p l o n l' o' n',
-    run fuel t p = (l, o, n) /\ o <> OutOfFuel /\ run_multi1 fuel t p = (l', o', n') /\ o' = o /\ (n' > n + 200)%nat /\ (count 1 l' > count 1 l + 200)%nat.
+    run fuel t p = (l, o, n) /\ o <> OutOfFuel /\ run_multi1 fuel t p = (l', o', n') /\ o' = o /\ (n' > n + 50)%nat /\ (count 1 l' > count 1 l + 50)%nat.
 Proof.
-  exists 1000%nat, (TPresent 3 (fun x => Ok (x =? 4))),
-         (PStage (SAccept 2 (fun x => Ok (x <? 5))) (PStage (SMap 1 (fun x => Ok x)) (PNumbers 300))).
+  exists 200%nat, (TPresent 3 (fun x => Ok (x =? 4))),
+         (PStage (SAccept 2 (fun x => Ok (x <? 5))) (PStage (SMap 1 (fun x => Ok x)) (PNumbers 80))).
   do 6 eexists. split; [vm_compute; reflexivity|]. split; [discriminate|].
   split; [vm_compute; reflexivity|]. split; [reflexivity|]. split; vm_compute; lia.
 Qed.
